@@ -35,6 +35,9 @@ Refs ==
   \cup {R(s, u, "h", pt, TRUE, p, f) : s \in {"http", "https"}, u \in BOOLEAN, pt \in {"none", "default", "other"},
                                        p \in Paths, f \in Frags}
   \cup {R("file", u, h, "none", TRUE, p, f) : u \in BOOLEAN, h \in {"", "h"}, p \in Paths \ {<<>>}, f \in Frags}
+  \* nothing but an authority: scheme://host[:port] with no path at all
+  \cup {R(s, u, "h", pt, FALSE, <<>>, f) : s \in {"http", "https"}, u \in BOOLEAN, pt \in {"none", "default", "other"}, f \in Frags}
+  \cup {R("file", u, "h", pt, FALSE, <<>>, f) : u \in BOOLEAN, pt \in {"none", "other"}, f \in Frags}   \* file has no default port
 
 \* ---- canonicalisation: lower-case scheme and host, default port and doubled slashes removed
 Canon(r) == [r EXCEPT !.up = FALSE,
